@@ -195,6 +195,58 @@ def run_stack(ctx, broken, ps):
             "stack_distinct": len(distinct), "stack_sample": scripts[n_corpus][:8]}
 
 
+LIVELOCK_KEY = "secondary-stack-smaller-than-one-interaction-livelock"
+
+
+def livelock_script(n_steps=40):
+    lines = ["config 4 64 1 0 1", "insert 0:1:5"]
+    for _ in range(n_steps):
+        lines += ["efp", "init", "pre", "interact kgg kgg kgg kgg", "cut", "efs"]
+    return lines
+
+
+def livelock_observed(script, out):
+    """True iff on the given outputs every interaction of the run failed and the track is still
+    alive with an empty queue at the end (the loop made no progress)."""
+    inter = [o for l, o in zip(script, out) if l.startswith("interact")]
+    ends = [o for l, o in zip(script, out) if l == "efs"]
+    if not inter or not ends or not all(o.startswith("efs ok") for o in ends):
+        return False
+    from checks import c02
+    d = c02.parse(ends[-1])
+    alive = [x for x in d["slots"] if x]
+    return (all(o.startswith("interact F:3 ") for o in inter) and len(alive) == 1
+            and alive[0]["st"] == "a" and alive[0]["steps"] == len(inter)
+            and d["c"]["init"] == 0 and d["c"]["alive"] == 1)
+
+
+def run_livelock(ctx, ps):
+    """the finding `starved_stack_livelock` replayed on the real code"""
+    exe, log, _ = vlib.build_harness("trackinit", HARNESS["trackinit"])
+    if exe is None:
+        return {}
+    script = livelock_script()
+    _, oh = vlib.run_lines([exe], script)
+    seen = livelock_observed(script, oh)
+    model_same = None
+    if ps["model_ok"] and os.path.exists(vlib.model_exe("C02")):
+        _, om = vlib.run_lines([vlib.model_exe("C02")], script)
+        model_same = (om == oh)
+    if seen:
+        ctx.violation(LIVELOCK_KEY,
+                      "secondary stack capacity 1 (4 slots, stack factor ~0.25) smaller than the 2 "
+                      "secondaries one interaction requests: the real InteractionApplier/"
+                      "StackAllocator fail the interaction at every one of 40 steps, the track "
+                      "stays alive, queued = 0, alive = 1 for ever — the event never completes "
+                      "(Lean: starved_stack_livelock)",
+                      {"harness": "harness/trackinit.cc", "ops": script[:8] + ["... x40"],
+                       "script": "corpus/C16/livelock_secondary_stack_smaller_than_one_interaction.ops",
+                       "last": oh[-1][:200], "contradicts": "C16 'the event still completes'; "
+                       "proved: Props/C16.lean starved_stack_livelock / starved_step_is_fixed_point",
+                       "livelock": True})
+    return {"livelock_reproduced": seen, "livelock_model_agrees": model_same}
+
+
 def run_interleave(ctx, ps):
     """model-side: random systems and schedules through the interleaving semantics of the Lean
     driver; the conclusions of `interleaved_allocs_disjoint` are re-evaluated on the outputs
@@ -281,12 +333,18 @@ def run(ctx):
         "stays alive at the same point with unchanged energy and gets step limit {0, failure "
         "action}; the interaction MFP was already consumed, so a new one is sampled — 'interacts "
         "again' is statistical (memoryless), not the same interaction replayed",
+        "finding: when the secondary stack cannot hold the request of a single interaction the "
+        "failed interaction is retried for ever (starved_stack_livelock); progress of a step is "
+        "guaranteed exactly when capacity >= that request (first_request_succeeds)",
         "`alloc(0)` and default-constructed (capacity 0) allocators violate CELER_EXPECT "
         "preconditions; capacity 0 is still exercised through a hand-built StackAllocatorData",
     ]
     cov = run_stack(ctx, broken, ps)
     cov.update(run_loop(ctx, broken, ps))
     cov.update(run_interleave(ctx, ps))
+    cov.update(run_livelock(ctx, ps))
+    if cov.get("livelock_model_agrees") is False:
+        broken.append("correspondence(livelock script): model and implementation differ")
     if broken and not ctx.violations:
         ctx.violation("unproved", "; ".join(broken)[:600],
                       {"no_longer_checks": broken, "diverging": cov.get("stack_diverging")},
@@ -313,6 +371,15 @@ def run(ctx):
 
 def replay(ctx, data):
     r = data["replay"]
+    if r.get("livelock"):
+        exe, log, _ = vlib.build_harness("trackinit", HARNESS["trackinit"])
+        script = livelock_script()
+        _, oh = vlib.run_lines([exe], script)
+        for l, o in list(zip(script, oh))[-6:]:
+            print(l, "->", o[:160])
+        seen = livelock_observed(script, oh)
+        print("livelock reproduced" if seen else "not reproduced")
+        return 1 if seen else 0
     if "ops" in r and r.get("harness", "").endswith("stack.cc"):
         exe, log, _ = vlib.build_harness("stack", HARNESS["stack"])
         _, oh = vlib.run_lines([exe], r["ops"])
